@@ -7,6 +7,7 @@ import (
 	"github.com/tsawler/tabula/zzharness/props/c04"
 	"github.com/tsawler/tabula/zzharness/props/c10"
 	"github.com/tsawler/tabula/zzharness/props/c14"
+	"github.com/tsawler/tabula/zzharness/props/c19"
 )
 
 func registerAll() {
@@ -16,4 +17,5 @@ func registerAll() {
 	register(c04.New())
 	register(c10.New())
 	register(c14.New())
+	register(c19.New())
 }
